@@ -788,7 +788,7 @@ def _expected_constrained(op, cmask, cvals, guess, n):
     return want
 
 
-def _certify(u, want, resfun, tol, what, **resargs):
+def _certify(u, want, resfun, tol, what, gnorm=0., **resargs):
     if not numpy.isfinite(u).all():
         return ('R-non-finite', f'{what} returned non-finite values {u[:6].tolist()}')
     fixed = ~numpy.isnan(want)
@@ -799,7 +799,10 @@ def _certify(u, want, resfun, tol, what, **resargs):
             r = resfun(u, **resargs)[~fixed]
         rn = float(numpy.linalg.norm(r))
         # slack: rounding error of evaluating the residual itself (bound on the magnitude of its terms times a few ulp)
-        au = float(numpy.linalg.norm(u))
+        # ... and of forming the iterate itself: an update applied to a starting vector of norm g leaves an absolute error of a few ulp of g
+        # in the result (a solve started from a huge vector cannot do better in one step, and the methods report the residual their
+        # update predicts, not one re-evaluated at the rounded iterate)
+        au = max(float(numpy.linalg.norm(u)), float(gnorm))
         mag = 30 * (1 + au + au**3) * (1 + abs(resargs.get('t', 0.))) * (1 + 1 / abs(resargs.get('dt', 1.)))
         if 'u0' in resargs and resargs['u0'] is not None:
             mag += float(numpy.linalg.norm(resargs['u0'])) / abs(resargs.get('dt', 1.))
@@ -857,7 +860,7 @@ def _do_solve(system, resfun, info, spec, op, constrain, cmask, cvals):
                 kw['tol'] = tol = 1e-8
         out = system.solve(**kw)
     u = numpy.asarray(out['u'], dtype=float)
-    bad = _certify(u, want, resfun, tol, f'solve(method={m})', **resargs)
+    bad = _certify(u, want, resfun, tol, f'solve(method={m})', gnorm=(float(numpy.linalg.norm(guess)) if guess is not None else 0.), **resargs)
     if bad:
         return bad, 'return'
     _STATE['last_solution'] = u.copy()
